@@ -24,7 +24,7 @@ from mc.spec import XTCE_URI, build_objects, load_doc, ns_prefix_arg
 
 PROP = "C15"
 LEVEL = "model_checking"
-STYLES = ("xtce", "q", "default", "none")
+STYLES = ("xtce", "XTCE", "default", "none")
 
 
 def W(defn) -> bytes:
@@ -221,7 +221,7 @@ def run(ctx):
         "programs": tally.programs,
         "exhaustive": True,
         "bound": (f"{len(items)} documents of the C09 family (palette kinds alone / ordered pairs, container trees) x namespace configurations "
-                  "{prefix xtce, prefix q, default namespace, none} (all four for every third document and all trees, one rotating otherwise) x "
+                  "{prefix xtce, upper-case prefix XTCE, default namespace, none} (all four for every third document and all trees, one rotating otherwise) x "
                   "{loaded from XML, built from objects}; 3 write/load cycles each; a sample re-serialized in two subprocesses with different PYTHONHASHSEED"),
         "rule": ("one evaluation = one document/config taken through G1..G4; states = distinct serializations reached; transitions = write and load "
                  "steps; traces = complete cycles compared"),
